@@ -117,6 +117,31 @@ def run(tier):
                 chk.append(("absent", 0, len(ops) - 4))
             scripts.append("Q " + " ".join(ops))
             meta.append((chk, mdoc))
+        # keys with a second spelling, or whose reading could depend on where they stand (multi-slash identifiers, identifiers
+        # longer than a vector block, underscore-grouped big numbers, radix / ratio spellings): the key inside a container
+        # below / above the 16-entry cut-over (where key hashes get cached), probed with the other spelling read on its own
+        # and with one taken out of another container (so that the probe's hash is cached too)
+        sp = [(b":http/get/users", b":http/get/users"), (b"a/b/c", b"a/b/c"), (b"clojure.core//", b"clojure.core//"), (b":user/id", b":user/id"),
+              (b":abcdefghijklmnopqrstuvwx/yz", b":abcdefghijklmnopqrstuvwx/yz"), (b"abcdefghijklmno/p/q", b"abcdefghijklmno/p/q"),
+              (b"12345678901234567890N", b"12345678901234567890N"), (b"1.50M", b"1.50M"), (b"\"a\\tb\"", b"\"a\tb\"")]
+        if cfg in ("exp", "both"):
+            sp += [(b"1_000_000_000_000_000_000_000N", b"1000000000000000000000N"), (b"3.141_592_653_589_793_238_46M", b"3.14159265358979323846M"),
+                   (b"1_0", b"10"), (b"1000000000000000000000N", b"1_000_000_000_000_000_000_000N")]
+        if cfg in ("clj", "both"):
+            sp += [(b"0x1F", b"31"), (b"4/2", b"2"), (b"2/4", b"1/2"), (b"017", b"15"), (b"2r101", b"5"), (b"36rZ", b"35")]
+        for kx, px in sp:
+            for nfill in (2, 16, 19):
+                for where in (0, nfill // 2, nfill):
+                    fl = [b":filler%d" % i for i in range(nfill)]
+                    ks = fl[:where] + [kx] + fl[where:]
+                    mdoc = b"{" + b" ".join(k + b" " + (b"777" if k == kx else b"0") for k in ks) + b"}"
+                    sdoc = b"#{" + b" ".join(ks) + b"}"
+                    pdoc = b"#{" + px + b" " + b" ".join(b"p%d" % i for i in range(18)) + b"}"
+                    ops = ["r0=%s" % C.hexs(mdoc), "r2=%s" % C.hexs(sdoc), "r1=%s" % C.hexs(px), "lk:0:1", "ck:0:1", "t:0.%d" % (2 * where + 1), "sc:2:1",
+                           "r3=%s" % C.hexs(pdoc), "lk:0:3.0", "ck:0:3.0", "t:0.%d" % (2 * where + 1), "sc:2:3.0",
+                           "h:1", "r1=%s" % C.hexs(px), "lk:0:1", "ck:0:1", "t:0.%d" % (2 * where + 1), "sc:2:1"]
+                    scripts.append("Q " + " ".join(ops))
+                    meta.append(([("present", where, 2), ("present", where, 7), ("present", where, 13)], mdoc))
         # Clojure flag: lookups in a metadata map merged from several annotations (its keys never went through the
         # duplicate check, so none of them carries a cached hash) agree with iteration, below and above 16 entries
         if cfg in ("clj", "both"):
